@@ -4,6 +4,7 @@ from collections import deque
 
 from gsa.cfg import Fn, S, SN, is_call, walk, lit
 from gsa import rules as R
+from gsa.layout import Interp, Poly
 
 EXPL = ("narrow: structural necessary conditions of container correctness, on every CFG path of the container instantiations "
         "of the driver matrix (gdeque, FixedSizeRing, FixedSizeBag sequential and concurrent, gslist sequential and "
@@ -30,6 +31,69 @@ def run(ctx):
     optional_(ctx, fx)
     iterator_reseat(ctx, fx)
     two_level(ctx, fx)
+    bag_header_gap(ctx, fx)
+
+
+def bag_header_gap(ctx, fx):
+    ctx.rule("C14.bag.first-slot-behind-header",
+             "InsertBag::newHeaderFromHeap carves a block out of a raw page: header first, elements behind it. By symbolic "
+             "interpretation of every instantiation (byte offsets from the page start; the driver instantiates one bag per "
+             "element size 1..40, the header being 32 bytes): the first element slot starts at or behind the end of the "
+             "header, less than one element (rounded up to whole slots) further than necessary, so constructing element 0 can "
+             "never overwrite the header's own end-of-block pointer. For element sizes above the header's size the folded "
+             "expressions are the same as for size 33 (the quotient is 0 and every comparison with the header's size has the "
+             "same outcome), so 1..40 is exhaustive")
+    fs = [f for f in fx.functions if f["qn"] == G + "InsertBag::newHeaderFromHeap" and f["kind"] == "inst"]
+    sizes = set()
+    for f in fs:
+        fn = ctx.fn(f)
+        det = []
+        hdr = esz = None
+        for b in fn.blocks.values():
+            for e in b.get("ev", []):
+                for x in walk(e):
+                    if isinstance(x, dict) and x.get("k") == "sizeof" and "c" in x and not isinstance(x["c"], dict):
+                        if "::header" in S(x):
+                            hdr = int(x["c"])
+        dl = [e for _, e in fn.events(lambda e: e.get("k") == "assign" and e.get("lp") == "H->dlast")]
+        for e in dl:
+            for x in walk(e.get("rhs")):
+                if isinstance(x, dict) and x.get("k") == "sizeof" and "c" in x and not isinstance(x["c"], dict) and "::header" not in S(x):
+                    esz = int(x["c"])
+        # the element type: what the raw page pointer is cast to
+        rec = None
+        for _, e in fn.events(lambda e: e.get("k") == "decl" and "init" in e):
+            for x in walk(e["init"]):
+                if isinstance(x, dict) and x.get("k") == "cast" and (x.get("tt") or {}).get("ptr") and (x.get("tt") or {}).get("rec"):
+                    rec = x["tt"]["rec"]
+        vals = set()
+        if esz is not None:
+            it = Interp(fn, {"m": Poly.sym("M")}, {}, lambda e: e.get("k") == "assign" and e.get("lp") == "H->dbegin", max_paths=16,
+                        esz_of={rec: esz})
+            for st, obs in it.run():
+                for o in obs:
+                    v = o.get("value")
+                    vals.add(v.p if v is not None else None)
+        if hdr is None or esz is None:
+            det.append("header / element size not found (header %s, element %s)" % (hdr, esz))
+        elif len(vals) != 1 or None in vals:
+            det.append("first slot is not a single byte offset from the page start: %s" % sorted(map(str, vals)))
+        else:
+            off = (list(vals)[0] - Poly.sym("M"))
+            if not off.is_const():
+                det.append("first slot at %s" % list(vals)[0])
+            else:
+                k = off.cval()
+                sizes.add(esz)
+                if k < hdr:
+                    det.append("element size %d: the first slot starts %d bytes into the block, inside the %d-byte header: "
+                               "constructing element 0 overwrites the header's end-of-block pointer and the block never "
+                               "looks full" % (esz, k, hdr))
+                elif k % esz or k - hdr >= 2 * esz:
+                    det.append("element size %d: first slot at byte %d (header %d bytes)" % (esz, k, hdr))
+        ctx.ob("C14.bag.first-slot-behind-header", G + "InsertBag::newHeaderFromHeap", not det, "; ".join(det), fn.loc(),
+               "T=%s bytes" % esz, fnkey=f["key"])
+    ctx.floor("InsertBag element sizes analysed", len(sizes), 40)
 
 
 def iterator_reseat(ctx, fx):
